@@ -18,6 +18,17 @@ Families (each bounded-exhaustive, bounds in the evidence `rule`):
   ident every Annex D character inside an identifier (first and non-first position) through the real compiler.
   src   source transparency: BOM, LF->CRLF, backslash-newline inserted at every byte position: cc1 -S output equal
         to the untransformed file's modulo .loc/.file.
+  off   source transparency as a function of FILE OFFSET: a 1.4 KB seed program (literals of every prefix, 2/3/4-byte
+        UTF-8 characters and UCNs in strings, character constants, identifiers and comments, escapes, directives,
+        existing splices, U+FEFF in mid-file, __LINE__ probes) behind padding (one long comment / many comment lines / blank lines / one
+        long string literal; main file or #included file; with/without BOM) such that a block boundary b falls between
+        every two adjacent bytes of the program, in LF form, CR LF form, and with a backslash-newline (LF and CR LF)
+        inserted at every byte and b before / inside / after the pair.  quick: b = 4096 slid over every byte, 8192 and
+        65536 within +-2 of every marked byte (CR, LF, backslash and newline of a splice, every byte of a multi-byte
+        character, backslash of a UCN / escape, every quote); thorough: every multiple of 4096 up to 128 KB (4096,
+        8192, 65536, 131072 over every byte), every multiple of 512 from 2048 within +-2 of every CR / LF.  cc1 -S
+        output (incl. the __LINE__ values) equal to the unpadded LF-only unspliced file's; gcc -S invariance under the
+        same transformations and gcc's object bytes of the seed program as second oracle.
 
 Nothing implementation-defined is judged: multi-character constants, escapes out of range of the element type,
 mixed-prefix concatenation, wchar_t signedness, '$' in identifiers, decimal constants that fit no listed type.
@@ -27,7 +38,7 @@ from vlib import core, twin
 from models import c11_literal as M
 
 LEVEL = "exploration"
-BUDGET = {"quick": 420, "thorough": 2400}
+BUDGET = {"quick": 900, "thorough": 7200}     # deadlines, not expected times
 
 HARNESS = os.path.join(core.VERIF, "harness")
 TMO = 900            # generous per-process wall limit (the machine may be heavily loaded); a timeout is never a verdict
@@ -1369,8 +1380,458 @@ def run_src(ctx):
 
 
 # =====================================================================================================================
+#  off: source transparency as a function of FILE OFFSET (large files)
+#
+#  The src family deviates small files (< 1.5 KB) at every byte.  Here the files are large: a seed program rich in
+#  literals, multi-byte characters, UCNs, comments, directives and existing splices is preceded by padding so that a
+#  chosen offset b ("boundary": a multiple of 512; quick 4096, 8192, 65536) falls between EVERY two adjacent bytes of
+#  the program (j = 0 .. len: b is the file offset of byte j of the program), in the forms
+#     lf           the program as is (every byte of every UTF-8 sequence, UCN, escape, literal, quote, comment, existing
+#                  splice ... lands on b-1 / b)
+#     crlf         every line end (padding included) CR LF          (the CR, the LF of each pair land on b-1 / b ...)
+#     splice       a backslash-newline inserted at byte i, b just before / inside / just after the inserted pair
+#     splice-crlf  the same in the CR LF file (backslash CR LF), b at each of the 4 places
+#  x padding kind {comment: one long /* */ line, lines: many // lines, blank: empty lines, string: one long string
+#  literal object} x where {main file, #included file} x {no BOM, BOM}.
+#  Oracle: cc1 -S output (modulo .loc/.file) equals that of the unpadded-equivalent LF-only unspliced file (same padding
+#  kind, 64 bytes of it; for the string kind the same pad object with the program pushed 2048 bytes further).  The lf /
+#  crlf forms carry three __LINE__ probes whose values are part of the object data (line structure is part of the
+#  transparency claim: CR LF is ONE line end); padding of more than one line is followed by `#line 2`.
+#  Second oracle: gcc -S is invariant under the same transformation (crlf per padding kind, BOM, splice at the checked
+#  insertion points; a point gcc does not agree on is skipped and counted) and the unpadded program linked with
+#  harness/c11_off_drv.c prints the same object bytes when compiled by chibicc and by gcc.
+# =====================================================================================================================
+OFF_PROG = r"""#define OFFSTR(x) #x
+#define OFFCAT(a, b) a ## b
+#define OFFLONG(a, b) \
+  ((a) * 2 + \
+   (b))
+#if defined(OFFSTR) && 2 > 1 /* é in a comment π 😀 */
+# define OFFY 0x1F // line comment é€😀
+#else
+# error no
+#endif
+/* block comment
+   over "lines" with 'q' é € 😀
+*/
+const char off_s1[] = "é€😀 \u00e9\u20ac\U0001F600 \x41\101\n\\";
+const unsigned short off_s2[] = u"é€😀\u00E9\U0001F600";
+const unsigned int off_s3[] = U"é€😀\u20ac﻿|";   /* U+FEFF inside a file is a character, not a BOM: ﻿ */
+const int off_s4[] = L"é€😀\U0001f600";
+@PROBE1@
+const char off_s5[] = u8"aé" "€b" /* between */ "😀"
+  "\u00e9";
+const char off_s6[] = "spliced \
+string\
+";
+const int off_c[] = { 'a', '\n', '\\', '\'', '\x7f', '\177', L'é', u'€', U'😀', L'\u00e9', u'\u20AC', U'\U0001F600' };
+int off_idé = 3, off_\u00e8x = 4, off_€😀 = 5;
+const char off_s7[] = OFFSTR(é "q" 'c'  +);
+const double off_d = 1.5e+3 + 0x1p-2 + .5f;
+const long off_n = OFFLONG(OFFY, 017) + OFFCAT(0b1, 01) + 42u + 7L;
+int off_f(int x) { return x ? off_idé + x : off_\u00e8x + off_€😀 + off_s1[x & 7]; }
+@PROBE2@
+#define T(x) { x, sizeof x },
+#define V(x) { &x, sizeof x },
+const struct { const void *p; unsigned long n; } off_tab[] = { T(off_s1) T(off_s2) T(off_s3) T(off_s4) T(off_s5) T(off_s6)
+  T(off_s7) T(off_c) V(off_d) V(off_n) V(off_line1) T(off_line2) { 0, 0 } };
+"""
+
+
+_OFF_CACHE = {}
+
+
+def off_prog(probes):
+    if ("prog", probes) not in _OFF_CACHE:
+        _OFF_CACHE[("prog", probes)] = _off_prog(probes)
+    return _OFF_CACHE[("prog", probes)]
+
+
+def _off_prog(probes):
+    """the seed program, LF only; probes=True: with __LINE__ probes (forms that keep the physical line structure)."""
+    s = OFF_PROG.replace("@PROBE1@", "const int off_line1 = __LINE__;" if probes else "const int off_line1 = 0;")
+    s = s.replace("@PROBE2@", "const int off_line2[] = { __LINE__,\n  __LINE__ };" if probes else "const int off_line2[] = { 0,\n  0 };")
+    return s.encode("utf-8")
+
+
+OFF_PADS = ("comment", "lines", "blank", "string")
+OFF_STRPAD_OVERHEAD = len(b'const char off_pad[] = "";')
+OFF_BOM = b"\xef\xbb\xbf"
+
+
+def off_pad(kind, n, eol):
+    """exactly n bytes of padding that is -S neutral (kinds comment / lines / blank) or one object (kind string);
+    every line of it ends in eol.  None when n is too small for the kind."""
+    e = len(eol)
+    if kind == "comment":
+        return b"/*" + b"x" * (n - 4 - e) + b"*/" + eol if n >= 4 + e else None
+    if kind == "string":
+        m = n - OFF_STRPAD_OVERHEAD - e
+        return b'const char off_pad[] = "' + b"p" * m + b'";' + eol if m >= 1 else None
+    if kind == "blank":
+        if e == 1:
+            return eol * n if n >= 1 else None
+        if n < 4:
+            return None
+        return eol * (n // 2) if n % 2 == 0 else eol * ((n - 3) // 2) + b" " + eol
+    if kind == "lines":
+        if n < 2 + e:
+            return None
+        out, left = [], n
+        while left:
+            L = 64 if left == 64 or left - 64 >= 2 + e else left
+            out.append(b"//" + b"-" * (L - 2 - e) + eol)
+            left -= L
+        return b"".join(out)
+    raise ValueError(kind)
+
+
+def off_hdr(kind, eol):
+    """what follows the padding: the program always starts on (presumed) line 2."""
+    return b"#line 2" + eol if kind in ("lines", "blank") else b""
+
+
+def off_body(variant, i):
+    if variant == "lf":
+        return off_prog(True)
+    if variant == "crlf":
+        if "crlf" not in _OFF_CACHE:
+            _OFF_CACHE["crlf"] = off_prog(True).replace(b"\n", b"\r\n")
+        return _OFF_CACHE["crlf"]
+    base = off_prog(False)
+    sp = base[:i] + b"\\\n" + base[i:]
+    return sp if variant == "splice" else sp.replace(b"\n", b"\r\n")
+
+
+def off_splice_points():
+    base = off_prog(False)
+    return [i for i in range(len(base)) if not (i > 0 and base[i - 1] == 0x5c and base[i] == 0x0a)]
+
+
+def off_inserted_at(variant, i):
+    """offset in off_body(variant, i) of the inserted backslash."""
+    if variant == "splice":
+        return i
+    return i + off_prog(False)[:i].count(b"\n")
+
+
+def off_files(case):
+    """case = (variant, padkind, where, bom, b, j, i) -> (variant file bytes, reference file bytes) or None when the
+    padding does not fit.  b is the file offset of byte j of the body."""
+    variant, kind, where, bom, b, j, i = case
+    eol = b"\r\n" if variant.endswith("crlf") else b"\n"
+    body = off_body(variant, i)
+    pre = OFF_BOM if bom else b""
+    hdr = off_hdr(kind, eol)
+    n = b - len(pre) - len(hdr) - j
+    pad = off_pad(kind, n, eol)
+    if pad is None:
+        return None
+    F = pre + pad + hdr + body
+    assert len(pre + pad + hdr) + j == b
+    prog = off_prog(variant in ("lf", "crlf"))
+    if kind == "string":
+        m = n - OFF_STRPAD_OVERHEAD - len(eol)
+        R = off_pad(kind, m + OFF_STRPAD_OVERHEAD + 1, b"\n") + b"/*" + b"x" * 2044 + b"*/" + prog     # program between b+595 and b+3502
+    else:
+        R = off_pad(kind, 64, b"\n") + off_hdr(kind, b"\n") + prog
+    return F, R
+
+
+OFF_UCN = re.compile(rb"\\(u[0-9a-fA-F]{4}|U[0-9a-fA-F]{8})")
+
+
+def off_straddle(F, b):
+    """class of what the offset b separates (for the signature)."""
+    if b >= len(F):
+        return "end-of-file"
+    L, R = F[b - 1], F[b]
+    if L == 0x0d and R == 0x0a:
+        return "backslash-cr|lf" if F[b - 2] == 0x5c else "cr|lf"
+    if L == 0x5c and R in (0x0d, 0x0a):
+        return "backslash|newline"
+    if R == 0x5c and F[b + 1:b + 2] in (b"\r", b"\n"):
+        return "|backslash-newline"
+    if F[b - 2:b] == b"\\\n" or F[b - 3:b] == b"\\\r\n":
+        return "backslash-newline|"
+    if F[b - 2:b] == b"\\\r":
+        return "backslash-cr|"
+    if (R & 0xC0) == 0x80:
+        return "inside-utf8-sequence"
+    if R >= 0xC0:
+        return "before-utf8-sequence"
+    if L >= 0x80:
+        return "after-utf8-sequence"
+    for m in OFF_UCN.finditer(F, max(0, b - 10), b + 10):
+        if m.start() < b < m.end():
+            return "inside-ucn"
+    if L in (0x0a, 0x0d) or R in (0x0a, 0x0d):
+        return "at-line-end"
+    if L in (0x22, 0x27) or R in (0x22, 0x27):
+        return "at-quote"
+    if L == 0x5c:
+        return "inside-escape"
+    return "other"
+
+
+def _off_S(chibicc, wd, where, data):
+    if where == "include":
+        with open(os.path.join(wd, "c11_off.h"), "wb") as f:
+            f.write(data)
+        data = b'#include "c11_off.h"\n'
+    return _cc1_S(chibicc, wd, "t.c", data)
+
+
+def _off_task(args):
+    chibicc, wd, cases = args
+    os.makedirs(wd, exist_ok=True)
+    refs = {}
+    bad, n, nofit, noref = [], 0, 0, 0
+    for case in cases:
+        fr = off_files(case)
+        if fr is None:
+            nofit += 1
+            continue
+        F, R = fr
+        where = case[2]
+        key = (where, hashlib.sha1(R).digest())
+        if key not in refs:
+            refs[key] = _off_S(chibicc, wd, where, R)
+        st0, ref = refs[key]
+        if st0 == "timeout":
+            continue
+        if st0 != 0:
+            if case[1] == "string":       # this reference is itself a large file: not judged against
+                noref += 1
+                continue
+            return "base-fail", "%s: %s %s" % (case, st0, ref), [], 0, 0, 0
+        st, got = _off_S(chibicc, wd, where, F)
+        if st == "timeout":
+            continue
+        n += 1
+        if st != 0:
+            bad.append((case, "rejected" if isinstance(st, int) and st > 0 else "signal"))
+        elif got != ref:
+            bad.append((case, "different-code"))
+    return "ok", "", bad, n, nofit, noref
+
+
+def _gcc_S(wd, data):
+    p = os.path.join(wd, "g.c")
+    with open(p, "wb") as f:
+        f.write(data)
+    st, out, err = core.run_limited(["gcc", "-S", "-O0", "-w", "-std=gnu11", "-g0", "-o", "-", "g.c"], cwd=wd, timeout=TMO, binary=True)
+    return out if st == 0 else None
+
+
+def _off_gcc_task(args):
+    """second oracle: is gcc -S invariant under the transformation of this case? -> (case, True / False)"""
+    wd, cases = args
+    os.makedirs(wd, exist_ok=True)
+    refs, res = {}, []
+    for case in cases:
+        F, R = off_files(case)
+        k = hashlib.sha1(R).digest()
+        if k not in refs:
+            refs[k] = _gcc_S(wd, R)
+        g = _gcc_S(wd, F)
+        res.append((case, refs[k] is not None and g == refs[k]))
+    return res
+
+
+OFF_REPLAY = ("(cd a && $CHIBICC -cc1 -cc1-input t.c -cc1-output t.s t.c) || exit 0\n"
+              "(cd b && $CHIBICC -cc1 -cc1-input t.c -cc1-output t.s t.c) || exit 1\n"
+              "grep -v -E '^[[:space:]]*\\.(loc|file)' a/t.s > a.s; grep -v -E '^[[:space:]]*\\.(loc|file)' b/t.s > b.s\n"
+              "cmp -s a.s b.s && exit 0; exit 1\n")
+
+
+def off_marks(variant):
+    """body offsets j such that the boundary is within +-2 of a marked byte (used where the boundary is not slid over
+    every byte): crlf: every CR and LF (incl. those of the existing backslash-newlines, and their backslashes);
+    lf: every byte of every multi-byte UTF-8 character, every backslash (UCN, escape, splice), every quote, every LF."""
+    body = off_body(variant, 0)
+    marked = set()
+    for k, c in enumerate(body):
+        if variant == "crlf":
+            hit = c in (0x0d, 0x0a) or (c == 0x5c and body[k + 1:k + 2] == b"\r")
+        else:
+            hit = c >= 0x80 or c in (0x5c, 0x22, 0x27, 0x0a)
+        if hit:
+            marked.add(k)
+    js = set()
+    for k in marked:
+        for d in (-2, -1, 0, 1, 2):
+            if 0 <= k - d <= len(body):
+                js.add(k - d)
+    return sorted(js)
+
+
+def off_marked_splice_points():
+    """insertion points next to a marked byte of the unspliced program (multi-byte character bytes, backslashes, quotes, line ends)."""
+    base = off_prog(False)
+    return [i for i in off_splice_points() if any(c >= 0x80 or c in (0x5c, 0x22, 0x27, 0x0a) for c in base[max(0, i - 1):i + 1])]
+
+
+def off_plan(tier):
+    """-> list of cases (variant, padkind, where, bom, b, j, i)"""
+    cases = []
+    nl = len(off_body("lf", 0))
+    nc = len(off_body("crlf", 0))
+    pts = off_splice_points()
+    mpts = off_marked_splice_points()
+    mk = {"lf": off_marks("lf"), "crlf": off_marks("crlf")}
+
+    def slide(variant, kind, where, bom, b, marks_only=False):
+        for j in (mk[variant] if marks_only else range((nl if variant == "lf" else nc) + 1)):
+            cases.append((variant, kind, where, bom, b, j, 0))
+
+    def splices(kind, where, b, points, allk):
+        """allk: the boundary at every place around the inserted pair; else only inside it (backslash | LF, backslash CR | LF)."""
+        for i in points:
+            for k in ((0, 1, 2) if allk else (1,)):
+                cases.append(("splice", kind, where, 0, b, i + k, i))
+            at = off_inserted_at("splice-crlf", i)
+            for k in ((0, 1, 2, 3) if allk else (2,)):
+                cases.append(("splice-crlf", kind, where, 0, b, at + k, i))
+    if tier == "quick":
+        slide("lf", "comment", "main", 0, 4096)
+        slide("crlf", "comment", "main", 0, 4096)
+        splices("comment", "main", 4096, pts, False)
+        for b in (8192, 65536):
+            slide("lf", "comment", "main", 0, b, True)
+            slide("crlf", "comment", "main", 0, b, True)
+            splices("comment", "main", b, mpts, False)
+        for kind in ("lines", "blank", "string"):
+            slide("lf", kind, "main", 0, 4096, True)
+            slide("crlf", kind, "main", 0, 4096, True)
+        slide("lf", "comment", "include", 0, 4096, True)
+        slide("crlf", "comment", "include", 0, 4096, True)
+        slide("crlf", "comment", "main", 1, 4096, True)
+    else:
+        full = (4096, 8192, 65536, 131072)
+        for b in range(4096, 131072 + 1, 4096):
+            slide("lf", "comment", "main", 0, b, b not in full)
+            slide("crlf", "comment", "main", 0, b, b not in full)
+        for b in (4096, 65536):
+            splices("comment", "main", b, pts, True)
+            for kind in ("lines", "blank", "string"):
+                slide("lf", kind, "main", 0, b)
+                slide("crlf", kind, "main", 0, b)
+            slide("lf", "comment", "include", 0, b)
+            slide("crlf", "comment", "include", 0, b)
+            slide("crlf", "comment", "main", 1, b)
+            slide("lf", "comment", "main", 1, b, True)
+        for b in (8192, 12288, 16384, 32768, 131072):
+            splices("comment", "main", b, pts, False)
+        splices("comment", "include", 4096, mpts, True)
+        splices("lines", "main", 4096, mpts, True)
+        for b in range(2048, 131072 + 1, 512):        # smaller multiples leave no room for the padding in front of the last bytes
+            if b % 4096:
+                slide("crlf", "comment", "main", 0, b, True)
+    return cases
+
+
+def run_off(ctx):
+    wd = ctx.mkdir("off")
+    # ---- second oracle 1: the unpadded program has the values gcc gives it
+    prog = off_prog(True)
+    base = off_pad("comment", 64, b"\n") + prog
+    C = type("C", (), {"chibicc": ctx.chibicc})
+    with open(os.path.join(wd, "p.c"), "wb") as f:
+        f.write(base)
+    drv = os.path.join(HARNESS, "c11_off_drv.c")
+    ok, stage, st, err = twin.cc_compile(C, os.path.join(wd, "p.c"), os.path.join(wd, "p_cc.o"), [], cwd=wd, timeout=TMO)
+    if not ok:
+        if st == "timeout":
+            ctx.incomplete("off: seed program compile timed out")
+            return 0
+        ctx.violation("C11|off|seed-program|rejected", "the seed program of the off family is rejected: %s" % err[-200:],
+                      files={"unit.c": base}, replay="$CHIBICC -cc1 -cc1-input unit.c -cc1-output unit.s unit.c && exit 0; exit 1")
+        return 1
+    outs = []
+    for tag, obj in (("cc", ["p_cc.o"]), ("ref", ["-std=gnu11", "-O0", "p.c"])):
+        st, o, e = core.run_limited(["gcc", "-w", "-fno-pie", "-no-pie", "-o", "p_" + tag, drv] + obj + ["-Wl,-z,noexecstack"], cwd=wd, timeout=TMO)
+        if st != 0:
+            raise core.HarnessError("off: cannot build the value driver (%s): %s" % (tag, e[-800:]))
+        st, o, e = core.run_limited([os.path.join(wd, "p_" + tag)], cwd=wd, timeout=TMO)
+        if st != 0:
+            raise core.HarnessError("off: value driver (%s) failed: %s" % (tag, st))
+        outs.append(o)
+    if outs[0] != outs[1]:
+        bad = [a.split()[0] for a, b in zip(outs[0].splitlines(), outs[1].splitlines()) if a != b]
+        ctx.violation("C11|off|seed-program|object-bytes-differ-from-gcc", "objects %s of the unpadded seed program differ from gcc's" % ",".join(bad),
+                      files={"p.c": base, "c11_off_drv.c": open(drv).read()},
+                      replay="$CHIBICC -cc1 -cc1-input p.c -cc1-output cc.s p.c || exit 1\nas -o cc.o cc.s || exit 1\n"
+                             "gcc -w -fno-pie -no-pie -o d1 c11_off_drv.c cc.o -Wl,-z,noexecstack || exit 0\n"
+                             "gcc -w -fno-pie -no-pie -std=gnu11 -O0 -o d2 c11_off_drv.c p.c || exit 0\n"
+                             "./d1 > o1; ./d2 > o2; cmp -s o1 o2 && exit 0; exit 1\n")
+    if len(outs[1].splitlines()) < 20:
+        raise core.HarnessError("off: vacuous value driver output")
+    # ---- second oracle 2: gcc -S is invariant under the transformations (independent of the offset)
+    pts = off_splice_points()
+    chk = pts if ctx.tier == "thorough" else pts[::7]
+    gcases = [("crlf", kind, "main", bom, 4096, 100, 0) for kind in OFF_PADS for bom in (0, 1)]
+    gcases += [("lf", kind, "main", 1, 8192, 100, 0) for kind in OFF_PADS]
+    gcases += [(v, "comment", "main", 0, 4096, i + 1, i) for i in chk for v in ("splice", "splice-crlf")]
+    gres = [r for part in core.pmap(_off_gcc_task, [(os.path.join(wd, "g%d" % k), c) for k, c in enumerate(core.chunks(gcases, 24))]) for r in part]
+    gbad_tr = [c for c, okk in gres if not okk and c[0] in ("lf", "crlf")]
+    if gbad_tr:
+        raise core.HarnessError("off: gcc -S is not invariant under %s - the generator is wrong" % (gbad_tr[:3],))
+    gskip = set(c[6] for c, okk in gres if not okk)
+    ctx.cover(off_gcc_invariance_checked=len(gres), off_gcc_splice_points_disagree=len(gskip))
+    if len(gskip) > len(chk) // 10:
+        raise core.HarnessError("off: gcc disagrees with splice transparency at %d of %d insertion points" % (len(gskip), len(chk)))
+    # ---- the enumeration
+    cases = [c for c in off_plan(ctx.tier) if not (c[0].startswith("splice") and c[6] in gskip)]
+    ctx.cover(off_skipped_ref_disagrees=sum(1 for c in off_plan(ctx.tier) if c[0].startswith("splice") and c[6] in gskip) if gskip else 0)
+    # big files cost more: order by boundary so that shards are homogeneous, then deal shards round-robin
+    cases.sort(key=lambda c: (c[4], c[0], c[1], c[2], c[3], c[5], c[6]))
+    shards = core.chunks(cases, 250)
+    tasks = [(ctx.chibicc, os.path.join(wd, "t%d" % k), sh) for k, sh in enumerate(shards)]
+    total = nofit = done = noref = 0
+    reported = {}
+    classes = set()
+    for gi, grp in enumerate(core.chunks(tasks, core.NPROC * 4)):
+        if ctx.out_of_time(reserve=90):
+            ctx.incomplete("off: deadline after %d of %d shards (boundaries up to %d complete)" % (done, len(tasks), grp[0][2][0][4] - 512))
+            break
+        for st, detail, bad, n, nf, nr in core.pmap(_off_task, grp):
+            done += 1
+            noref += nr
+            if st != "ok":
+                raise core.HarnessError("off: a reference file does not compile with chibicc: %s" % detail)
+            total += n
+            nofit += nf
+            for case, dev in bad:
+                variant, kind, where, bom, b, j, i = case
+                F, R = off_files(case)
+                sig = "C11|off|%s/%s%s|%s" % (variant, off_straddle(F, b), "/included-file" if where == "include" else "", dev)
+                if reported.get(sig, 0) >= 1:
+                    ctx.violation(sig, "", None, None)
+                    continue
+                reported[sig] = 1
+                files = {"a/t.c": R, "b/t.c": F}
+                if where == "include":
+                    files = {"a/t.c": b'#include "c11_off.h"\n', "b/t.c": b'#include "c11_off.h"\n', "a/c11_off.h": R, "b/c11_off.h": F}
+                ctx.violation(sig, "seed program behind %s padding (%s%s%s) so that file offset %d is byte %d of the program%s: %s vs the "
+                              "unpadded LF-only file [bytes %r | %r]" %
+                              (kind, variant, ", BOM" if bom else "", ", in an #included file" if where == "include" else "", b, j,
+                               " (backslash-newline inserted at program byte %d)" % i if variant.startswith("splice") else "",
+                               dev, F[max(0, b - 12):b], F[b:b + 6]), files=files, replay=OFF_REPLAY)
+    for c in cases:
+        classes.add((c[0], c[1], c[2], c[3], c[4]))
+    ctx.cover(off_cases_judged=total, off_padding_does_not_fit=nofit, off_large_reference_rejected=noref, off_boundaries=sorted(set(c[4] for c in cases)),
+              off_program_bytes=len(prog), off_form_x_padding_x_where_x_bom_x_boundary=len(classes))
+    if total < 1000 and ctx.exhaustive:
+        raise core.HarnessError("vacuous: only %d large-file cases judged" % total)
+    ctx.sample({"off_case": "form crlf, comment padding, boundary 4096 at program byte 100",
+                "bytes_around_boundary": repr(off_files(("crlf", "comment", "main", 0, 4096, 100, 0))[0][4080:4110])}, limit=16)
+    return total
+
+
+# =====================================================================================================================
 def run(ctx):
-    parts = os.environ.get("C11_ONLY", "twin,uwb,ucc,ident,src").split(",")
+    parts = os.environ.get("C11_ONLY", "twin,uwb,ucc,ident,src,off").split(",")
     ev = 0
     nontriv = 0
     if "uwb" in parts:
@@ -1381,6 +1842,8 @@ def run(ctx):
         n = run_hdr(ctx); ev += n; nontriv += n
     if "src" in parts and not ctx.out_of_time(reserve=60):
         n = run_src(ctx); ev += n; nontriv += n
+    if "off" in parts and not ctx.out_of_time(reserve=120):
+        n = run_off(ctx); ev += n; nontriv += n
     if "ident" in parts and not ctx.out_of_time(reserve=60):
         n = run_ident(ctx); ev += n; nontriv += n
     if "ucc" in parts:
@@ -1391,7 +1854,8 @@ def run(ctx):
     ctx.cover(evaluations=ev, distinct_nontrivial=nontriv,
               rule="one case = one literal spelling (judged on value, run-time value, sizeof, _Generic class, object bytes as applicable), "
                    "one (code point, function) pair of unicode.c, one (code point, literal kind, prefix) instance through the compiler, "
-                   "one Annex D character in one identifier position, or one single-deviation variant of a seed source file; "
+                   "one Annex D character in one identifier position, one single-deviation variant of a seed source file, or one "
+                   "(form, padding, boundary offset, program byte at the boundary) placement of the large-file seed program; "
                    "non-trivial = the model (6.4.4.1p5 table, 6.4.4.4/6.4.5 encoder, UTF-8/16/32 definitions, Annex D) defines the "
                    "result and, where gcc is linked as a twin, gcc agrees with the model",
               bounds={"int": "bases 2/8/10/16 x 23 suffix spellings x %d magnitudes (+ leading-zero / upper-case variants)" % len(magnitudes(ctx.tier)),
@@ -1401,8 +1865,17 @@ def run(ctx):
                       "uwb": "all 1112064 scalar values",
                       "ucc": "quick: planes 0-1; thorough: planes 0-16; string prefixes '',u8,u,U,L, character-constant prefixes u,U,L, UCN spelling",
                       "ident": "quick: whole BMP + boundaries of every Annex D range; thorough: every Annex D character; first and later position",
-                      "src": "%d seed files; BOM, CRLF, splice at every byte offset%s" % (len(SEEDS), " (+CRLF splices, double splices, BOM+splice)" if ctx.tier == "thorough" else "")})
+                      "src": "%d seed files; BOM, CRLF, splice at every byte offset%s" % (len(SEEDS), " (+CRLF splices, double splices, BOM+splice)" if ctx.tier == "thorough" else ""),
+                      "off": "1 seed program of %d bytes behind padding {comment, lines, blank, string} in {main, included} file, {no BOM, BOM}; forms lf, crlf, "
+                             "splice / splice-crlf inserted at every byte; block boundary b between every two adjacent bytes of the program: %s"
+                             % (len(off_prog(True)), "b = 4096 (every byte), 8192 and 65536 (+-2 around every CR, LF, splice byte, multi-byte character byte, "
+                                "UCN / escape backslash, quote)" if ctx.tier == "quick" else
+                                "b = every multiple of 4096 up to 131072 (4096, 8192, 65536, 131072 over every byte, the others +-2 around marked bytes), "
+                                "every multiple of 512 from 2048 up to 131072 +-2 around every CR / LF of the crlf form")})
     ctx.assume("execution character set is UTF-8 / UTF-16 / UTF-32 (char16_t = unsigned short, char32_t = unsigned int, plain char signed) as fixed by the x86-64 psABI and gcc")
-    ctx.assume("line numbers (.loc/.file) are not judged here (C18); lone CR line ends are exercised but not judged")
+    ctx.assume("line numbers in .loc/.file are not judged here (C18), but the VALUE of __LINE__ after a CR LF / BOM / padding is (off family: "
+               "a CR LF pair is one line end); lone CR line ends are exercised but not judged")
+    ctx.assume("off family: the reads of the compiler happen at multiples of 512 bytes up to 128 KB (stdio / page / pipe buffer sizes); "
+               "a deviation that needs another alignment or a larger file is out of the bound")
     ctx.assume("wchar_t signedness, multi-character constants, out-of-range escapes, mixed-prefix concatenation, '$' in identifiers are implementation-defined: skipped")
     ctx.assume("splices inside a UTF-8 multibyte sequence are judged (phase 2 operates on bytes in chibicc and gcc alike)")
